@@ -4,6 +4,7 @@
 use super::kani;
 use super::monitor;
 use super::shadow;
+use super::shadow::unroll;
 use crate::basic_types::PropagationStatusCP;
 use crate::engine::conflict_analysis::SemanticMinimiser;
 use crate::engine::opaque_domain_event::OpaqueDomainEvent;
@@ -82,29 +83,27 @@ impl Env {
     /// was enqueued.
     pub(crate) fn notify_pending<P: Propagator>(&mut self, propagator: &mut P, n: usize) -> bool {
         let mut enqueue = false;
-        let mut d = 1;
-        while d <= n {
-            let mask = shadow::take_events(d);
-            // the order of the real `EventSink` is insertion order; a propagator must not depend
-            // on it, so one fixed order is used here
-            let mut e = 0;
-            while e < 4 {
-                if mask & (1u8 << e) != 0 {
-                    if let Some(local_id) = monitor::watcher_of(&self.watch_list, e, d, false) {
-                        let decision = propagator.notify(
-                            StatefulPropagationContext::new(&mut self.trailed, self.assignments),
-                            local_id,
-                            OpaqueDomainEvent::from(EVENT_ORDER[e]),
-                        );
-                        if decision == EnqueueDecision::Enqueue {
-                            enqueue = true;
+        unroll!(d in [1, 2, 3, 4] {
+            if d <= n {
+                let mask = shadow::take_events(d);
+                // the order of the real `EventSink` is insertion order; a propagator must not
+                // depend on it, so one fixed order is used here
+                unroll!(e in [0, 1, 2, 3] {
+                    if mask & (1u8 << e) != 0 {
+                        if let Some(local_id) = monitor::watcher_of(&self.watch_list, e, d, false) {
+                            let decision = propagator.notify(
+                                StatefulPropagationContext::new(&mut self.trailed, self.assignments),
+                                local_id,
+                                OpaqueDomainEvent::from(EVENT_ORDER[e]),
+                            );
+                            if decision == EnqueueDecision::Enqueue {
+                                enqueue = true;
+                            }
                         }
                     }
-                }
-                e += 1;
+                });
             }
-            d += 1;
-        }
+        });
         enqueue
     }
 
@@ -120,9 +119,9 @@ impl Env {
         max_calls: usize,
     ) -> (bool, bool) {
         let mut ok = true;
-        let mut calls = 0;
-        while calls < max_calls {
-            if enqueued && ok {
+        assert!(max_calls <= 2, "[HARNESS] at most two propagate calls are followed");
+        unroll!(calls in [0, 1] {
+            if calls < max_calls && enqueued && ok {
                 let status = propagator.propagate(self.prop_ctx());
                 monitor::check_outcome(&status, self.assignments);
                 ok = status.is_ok();
@@ -136,8 +135,7 @@ impl Env {
                     false
                 };
             }
-            calls += 1;
-        }
+        });
         (ok, enqueued)
     }
 
@@ -147,39 +145,37 @@ impl Env {
     /// `removed` says for which of them a value removal is being undone.
     pub(crate) fn backtrack<P: Propagator>(&mut self, propagator: &mut P, n: usize, removed: &[bool]) {
         let mut before = [(0i32, 0i32); shadow::NV];
-        let mut d = 1;
-        while d <= n {
-            before[d] = (shadow::lb(d), shadow::ub(d));
-            d += 1;
-        }
+        unroll!(d in [1, 2, 3, 4] {
+            if d <= n {
+                before[d] = (shadow::lb(d), shadow::ub(d));
+            }
+        });
         shadow::pop_level();
         self.trailed.synchronise(0);
         propagator.synchronise(self.read_ctx());
-        let mut d = 1;
-        while d <= n {
-            let was_fixed = before[d].0 == before[d].1;
-            let is_fixed = shadow::lb(d) == shadow::ub(d);
-            let happened = [
-                was_fixed && !is_fixed,
-                before[d].0 != shadow::lb(d),
-                before[d].1 != shadow::ub(d),
-                removed[d],
-            ];
-            let mut e = 0;
-            while e < 4 {
-                if happened[e] {
-                    if let Some(local_id) = monitor::watcher_of(&self.watch_list, e, d, true) {
-                        propagator.notify_backtrack(
-                            self.read_ctx(),
-                            local_id,
-                            OpaqueDomainEvent::from(EVENT_ORDER[e]),
-                        );
+        unroll!(d in [1, 2, 3, 4] {
+            if d <= n {
+                let was_fixed = before[d].0 == before[d].1;
+                let is_fixed = shadow::lb(d) == shadow::ub(d);
+                let happened = [
+                    was_fixed && !is_fixed,
+                    before[d].0 != shadow::lb(d),
+                    before[d].1 != shadow::ub(d),
+                    removed[d],
+                ];
+                unroll!(e in [0, 1, 2, 3] {
+                    if happened[e] {
+                        if let Some(local_id) = monitor::watcher_of(&self.watch_list, e, d, true) {
+                            propagator.notify_backtrack(
+                                self.read_ctx(),
+                                local_id,
+                                OpaqueDomainEvent::from(EVENT_ORDER[e]),
+                            );
+                        }
                     }
-                }
-                e += 1;
+                });
             }
-            d += 1;
-        }
+        });
     }
 
     pub(crate) fn push_level(&mut self) {
@@ -256,12 +252,12 @@ pub(crate) fn protocol<P: Propagator>(
     max_calls: usize,
 ) -> Outcome {
     let mut env = Env::new();
-    let mut d = 1;
-    while d <= n {
-        // events of domain creation are not delivered to a propagator posted afterwards
-        let _ = shadow::take_events(d);
-        d += 1;
-    }
+    unroll!(d in [1, 2, 3, 4] {
+        if d <= n {
+            // events of domain creation are not delivered to a propagator posted afterwards
+            let _ = shadow::take_events(d);
+        }
+    });
     let init = propagator.initialise_at_root(&mut env.init_ctx());
     monitor::check_init_outcome(&init, env.assignments);
     let root_conflict = init.is_err();
@@ -282,9 +278,10 @@ pub(crate) fn protocol<P: Propagator>(
             ok && unsafe { monitor::PROPAGATIONS } > 0 && unsafe { monitor::W_OK },
             "propagation at posting with live witness"
         );
-        let mut index = 0;
-        for change in changes.iter() {
-            if outcome.ok {
+        assert!(changes.len() <= 2, "[HARNESS] at most two changes");
+        unroll!(index in [0, 1] {
+            if index < changes.len() && outcome.ok {
+                let change = &changes[index];
                 let undo = backtrack_first && index == 0;
                 let w_ok_before = unsafe { monitor::W_OK };
                 if undo {
@@ -313,8 +310,7 @@ pub(crate) fn protocol<P: Propagator>(
                     outcome.pending = false;
                 }
             }
-            index += 1;
-        }
+        });
     }
     // lazily computed reasons are evaluated again in the final (later) state
     monitor::recheck_lazy(env.assignments);
@@ -324,11 +320,11 @@ pub(crate) fn protocol<P: Propagator>(
 
 pub(crate) fn all_fixed(n: usize) -> bool {
     let mut all = true;
-    let mut d = 1;
-    while d <= n {
-        all = all && shadow::is_fixed(d);
-        d += 1;
-    }
+    unroll!(d in [1, 2, 3, 4] {
+        if d <= n {
+            all = all && shadow::is_fixed(d);
+        }
+    });
     all
 }
 
